@@ -103,9 +103,10 @@ def gen_cases(ctx):
     # LARGE NAME POPULATIONS: tens of thousands of distinct names in one scope and across scopes (a table keyed by a
     # hash of the name, a growth step of the map, an id counter of a narrow type would show here and nowhere else);
     # these histories are checked against the specification only (the association-list model is quadratic)
-    for n, tag in ((70000, "a"), (150000, "b")) if ctx.tier == "quick" else ((70000, "a"), (150000, "b"), (400000, "c")):
+    for n, tag in ((70000, "a"), (600000, "b")) if ctx.tier == "quick" else ((70000, "a"), (600000, "b"), (1200000, "c")):
         names = ["".join(rnd.choice("abcdefghijklmnopqrstuvwxyz") for _ in range(rnd.randint(5, 9))) + tag for _ in range(n)]
         names = list(dict.fromkeys(names))
+        # half of the names in the global scope (for 300 000 names a 32-bit key collides with probability > 0.9999)
         ops = [f"B {x} Int - n" for x in names[: n // 2]] + ["E l"] + [f"B {x} Qubit" for x in names[n // 2:]]
         ops += [f"L {x}" for x in names[:: 7]] + ["X"] + [f"L {x}" for x in names[n // 2:: 11]] + [f"L {x}" for x in names[: n // 2: 13]]
         cases.append(" ; ".join(ops))
